@@ -86,7 +86,9 @@ Inductive custom : Type :=
 | CBin      (* Marshal() / Unmarshal(), used with the binary tag *)
 | CText     (* encoding.TextMarshaler / TextUnmarshaler, used with the string tag *)
 | CNull     (* sql.NullString: Valuer + Scanner that represents NULL by itself; payload [GBytes o], None = invalid *)
-| CUuid.    (* a [16]byte with Value() = its bytes and Scan copying into it (internal/testfixtures.CustomType) *)
+| CUuid     (* a [16]byte with Value() = its bytes and Scan copying into it (internal/testfixtures.CustomType) *)
+| CTri.     (* a tri-state integer type that is its own Valuer / Scanner and stands for SQL NULL by a value that is
+               not its zero value: payload [GInt z], 0 = no, 1 = yes, 2 = unanswered <-> NULL *)
 
 Inductive base : Type :=
 | BInt (w : Z) | BUint (w : Z)       (* w = 8,16,32,64; Go int/uint are 64 bits wide here *)
@@ -98,7 +100,7 @@ Inductive tag : Type := TNone | TBinary | TString | TJson | TImplicitNull.
 Record desc : Type := mk_desc { d_base : base; d_ptr : bool; d_tag : tag }.
 
 Definition custom_eqb (a b : custom) : bool :=
-  match a, b with CValuer, CValuer | CBin, CBin | CText, CText | CNull, CNull | CUuid, CUuid => true | _, _ => false end.
+  match a, b with CValuer, CValuer | CBin, CBin | CText, CText | CNull, CNull | CUuid, CUuid | CTri, CTri => true | _, _ => false end.
 
 Definition base_eqb (a b : base) : bool :=
   match a, b with
@@ -142,6 +144,7 @@ Definition zero_of (b : base) : gval :=
   | BTime => GTime tzero
   | BCustom CNull => GBytes None
   | BCustom CUuid => GCust zero16
+  | BCustom CTri => GInt 0
   | BCustom _ => GCust ""
   end.
 
@@ -231,6 +234,7 @@ Definition valuer (d : desc) (x : dyn) : dval :=
         | BCustom CValuer, GCust s => DBytes s
         | BCustom CUuid, GCust s => DBytes s
         | BCustom CNull, GBytes (Some s) => DStr s
+        | BCustom CTri, GInt z => if Z.eqb z 2 then DNull else DInt z
         | _, _ =>
           match d_tag d with
           | TBinary => match b, g with BCustom CBin, GCust s => DBytes (enc_bin s) | _, _ => plain b g end
@@ -323,6 +327,15 @@ Definition kind_scan_gen (fix24 : bool) (e : env) (b : base) (s : src) : res gva
 
 Definition kind_scan := kind_scan_gen true.
 
+(** Scan of the tri-state type on a non-nil source: the integers 0 and 1 in the forms an integer column
+    hands back. *)
+Definition scan_tri (s : src) : res Z :=
+  match s with
+  | SInt _ z => if Z.eqb z 0 || Z.eqb z 1 then Ok z else Err
+  | SBytes x | SStr x => if String.eqb x "0" then Ok 0 else if String.eqb x "1" then Ok 1 else Err
+  | _ => Err
+  end.
+
 Definition as_bytes (s : src) : option string :=
   match s with SBytes x | SStr x => Some x | _ => None end.
 
@@ -387,6 +400,12 @@ Definition scanner_gen (fix24 : bool) (e : env) (d : desc) (s : src) : res fval 
       match s with
       | SNull => Ok (if d_ptr d then FNil else FVal (GBytes None))
       | _ => rbind (scan_string e s) (fun x => Ok (FVal (GBytes (Some x))))
+      end
+  | BCustom CTri =>
+      (* Scanner.Scan hands NULL to a non-pointer sql.Scanner: its Scan decides what NULL means *)
+      match s with
+      | SNull => Ok (if d_ptr d then FNil else FVal (GInt 2))
+      | _ => rbind (scan_tri s) (fun z => Ok (FVal (GInt z)))
       end
   | b =>
       match s with
@@ -822,7 +841,7 @@ Definition tag_eqb (a b : tag) : bool :=
 Definition desc_ok (d : desc) : bool :=
   (match d_base d, d_tag d with
    | BCustom CValuer, TNone | BCustom CBin, TBinary | BCustom CText, TString
-   | BCustom CNull, TNone | BCustom CUuid, TNone => true
+   | BCustom CNull, TNone | BCustom CUuid, TNone | BCustom CTri, TNone => true
    | BCustom _, _ => false
    | BBytes, (TNone | TBinary | TImplicitNull) => true
    | BBytes, _ => false
@@ -846,6 +865,8 @@ Definition gval_ok (e : env) (b : base) (g : gval) : bool :=
   | BCustom CNull, GBytes _ => true
   | BCustom CNull, _ => false
   | BCustom CUuid, GCust s => Nat.eqb (String.length s) 16
+  | BCustom CTri, GInt z => (0 <=? z) && (z <=? 2)
+  | BCustom CTri, _ => false
   | BF64, GFloat _ | BBool, GBool _ | BStr, GStr _ | BTime, GTime _ | BCustom _, GCust _ | BBytes, GBytes _ => true
   | _, _ => false
   end.
@@ -857,7 +878,11 @@ Definition fval_ok (e : env) (d : desc) (x : fval) : bool :=
       gval_ok e (d_base d) g &&
       (* a non-nil *[]byte pointing at a nil slice comes back pointing at an empty one, a non-nil
          *sql.NullString that is not Valid comes back as a nil pointer *)
-      negb (d_ptr d && match d_base d, g with (BBytes | BCustom CNull), GBytes None => true | _, _ => false end)
+      negb (d_ptr d && match d_base d, g with
+                       | (BBytes | BCustom CNull), GBytes None => true
+                       | BCustom CTri, GInt z => Z.eqb z 2     (* a non-nil pointer to "unanswered" is written as NULL *)
+                       | _, _ => false
+                       end)
   end.
 
 (** Column types a field may be stored in.  An integer column has the field's signedness; a FLOAT
@@ -873,7 +898,7 @@ Definition col_matches (d : desc) (c : sqlcol) (p : path) : bool :=
           (* MEDIUMINT UNSIGNED comes back from the binlog decoder as an int32 sign-extended from 24 bits:
              values from 2^23 cannot be told from negative ones without the column's metadata *)
           negb (u && Z.eqb w 24 && match p with PBinlog => true | _ => false end) &&
-          match d_base d with BInt _ => negb u | BUint _ => u | BBool => true | _ => false end
+          match d_base d with BInt _ | BCustom CTri => negb u | BUint _ => u | BBool => true | _ => false end
       | ColFloat => match d_base d with BF32 => true | _ => false end
       | ColVarchar =>
           match d_base d, p with BCustom CBin, PBinlog => false | _, _ => true end
